@@ -163,9 +163,14 @@ func c02Violation(idx []int, gaps []string) core.Violation {
 	return core.Violation{Kind: k, Case: fmt.Sprintf("%q", src), Detail: d, Payload: pl, Size: len(sh)}
 }
 
-// c02Class6 (thorough): length 6 over the class alphabet.
-func c02Class6(c *core.Ctx) {
+// c02ClassN: length 6 (thorough; quick: length 5, which the thorough tier covers with the full alphabet) over the
+// class alphabet.
+func c02ClassN(c *core.Ctx) {
+	N := 5
 	if c.Thorough() {
+		N = 6
+	}
+	{
 		cls := make([]int, len(gen.TClass))
 		for i, t := range gen.TClass {
 			for j, u := range gen.T {
@@ -174,9 +179,9 @@ func c02Class6(c *core.Ctx) {
 				}
 			}
 		}
-		idx := make([]int, 6)
-		g6 := make([]string, 5)
-		gen.EachSeq(len(cls), 6, func(ci []int) bool {
+		idx := make([]int, N)
+		g6 := make([]string, N-1)
+		gen.EachSeq(len(cls), N, func(ci []int) bool {
 			if !c.Next() {
 				return true
 			}
@@ -203,7 +208,7 @@ func c02Class6(c *core.Ctx) {
 					continue
 				}
 				c.Inc("programs")
-				c.Inc("programs_length_6_class_alphabet")
+				c.Inc(fmt.Sprintf("programs_length_%d_class_alphabet", N))
 				if k != "" && c.ShrinkOK(k) {
 					c.Violate(c02Violation(append([]int{}, idx...), append([]string{}, g6...)))
 				}
@@ -211,7 +216,7 @@ func c02Class6(c *core.Ctx) {
 			return true
 		})
 		if !c.Expired() {
-			c.SetMax("token_length_completed_class_alphabet", 6)
+			c.SetMax("token_length_completed_class_alphabet", int64(N))
 		}
 	}
 }
@@ -310,7 +315,7 @@ func c02Run(c *core.Ctx) {
 			c.Violate(core.Violation{Kind: k, Config: "number", Case: fmt.Sprintf("%q", src), Detail: d, Payload: pl, Size: len(lit)})
 		}
 	}
-	c02Class6(c)
+	c02ClassN(c)
 	// soundness self-check of the prefilter at n<=3: nothing it drops may be a valid subset program
 	if c.Shard == 0 {
 		for L := 1; L <= 3; L++ {
